@@ -56,6 +56,9 @@ def write_replay(prop, violation, mod):
     name = digest(violation["case"]) + ".json"
     path = os.path.join(d, name)
     doc = {"property": prop, **violation}
+    if violation.get("interpreter_flags"):
+        name = digest([violation["case"], violation["interpreter_flags"]]) + ".json"
+        path = os.path.join(d, name)
     repro = getattr(mod, "repro_py", None)
     if repro:
         try:
@@ -86,6 +89,64 @@ def write_evidence(prop, tier, seed, level, coverage, assumptions, wall_s, n_vio
     os.replace(tmp, os.path.join(d, f"{prop}.json"))
 
 
+# The second interpreter: the same check run by an interpreter started with other flags than the first (-O: assert statements are not compiled
+# and __debug__ is false) and in another locale (C: ASCII is the preferred encoding), on every k-th partition of every fan-out for the
+# expensive checks.  What the library does must not depend on either.
+SECOND_FLAGS = ["-O"]
+SECOND_SLICE = {"C01": 12, "C04": 16, "C05": 16, "C07": 12, "C08": 4, "C09": 8, "C15": 12, "C16": 12, "C17": 8, "C02": 3, "C10": 3, "C03": 3, "C12": 3, "C18": 2}
+
+
+def start_second_interpreter(prop, tier, seed):
+    import shutil
+    import subprocess
+    out = os.path.join(OUT_ROOT, ".work", f"second_interpreter_{prop}_{os.getpid()}")
+    shutil.rmtree(out, ignore_errors=True)
+    os.makedirs(out, exist_ok=True)
+    # ... and in the C locale with UTF-8 mode off: open() without an encoding, the file system encoding and locale.getpreferredencoding() are ASCII
+    # there (standard streams stay UTF-8 so that reports can be printed)
+    env = dict(os.environ, LC_ALL="C", LANG="C", PYTHONUTF8="0", PYTHONCOERCECLOCALE="0", PYTHONIOENCODING="utf-8",
+               VERIF_OUT=out, VERIF_SECOND=" ".join(SECOND_FLAGS), VERIF_SLICE=str(SECOND_SLICE.get(prop, 1) * (2 if tier == "thorough" else 1)),
+               VERIF_SEED=str(seed), VERIF_JOBS="6")
+    p = subprocess.Popen([sys.executable, *SECOND_FLAGS, "-X", "faulthandler", "-m", "mc.runner", prop, "--tier", tier], cwd=VERIF_ROOT, env=env,
+                         stdout=subprocess.PIPE, stderr=subprocess.STDOUT, text=True)
+    return p, out
+
+
+def finish_second_interpreter(prop, p, out):
+    """-> (summary for the evidence, [replay documents of the violations it reported])"""
+    import shutil
+    try:
+        so, _ = p.communicate(timeout=7200)
+    except Exception as e:  # noqa: BLE001
+        p.kill()
+        so = f"second interpreter did not finish: {e!r}"
+    docs = []
+    for line in so.splitlines():
+        if line.startswith("VIOLATION ") and "replay=" in line:
+            path = line.split("replay=", 1)[1].strip()
+            try:
+                with open(path) as f:
+                    d = json.load(f)
+                d["interpreter_flags"] = SECOND_FLAGS
+                if d not in docs:
+                    docs.append(d)
+            except Exception:  # noqa: BLE001
+                pass
+    ev = {}
+    try:
+        with open(os.path.join(out, "evidence", f"{prop}.json")) as f:
+            ev = json.load(f)
+    except Exception:  # noqa: BLE001
+        pass
+    summary = {"flags": " ".join(SECOND_FLAGS), "locale": "C (LC_ALL=C, PYTHONUTF8=0, PYTHONCOERCECLOCALE=0)", "partitions": f"every {os.environ.get('VERIF_SLICE_SHOWN', '')}".strip(),
+               "evaluations": ev.get("coverage", {}).get("evaluations"), "violations": ev.get("violations"), "exit_code": p.returncode}
+    if p.returncode not in (0, 1) or (p.returncode == 1 and not docs):
+        docs.append({"property": prop, "case": {"second_interpreter": True}, "sig": {"kind": "second-interpreter-run-failed", "exit": p.returncode},
+                     "observed": so[-1500:], "interpreter_flags": SECOND_FLAGS})
+    shutil.rmtree(out, ignore_errors=True)
+    return summary, docs
+
+
 def main(argv=None):
     import logging
     logging.disable(logging.CRITICAL)
@@ -108,6 +169,13 @@ def main(argv=None):
         kernel.MAX_PER_SIGNATURE = 10 ** 6  # replays re-run a family and pick the case: keep everything
         with open(args.replay) as f:
             doc = json.load(f)
+        if doc.get("interpreter_flags") and not sys.flags.optimize and "-O" in doc["interpreter_flags"]:
+            # found by the second interpreter: replay it there
+            os.execv(sys.executable, [sys.executable, *doc["interpreter_flags"], "-X", "faulthandler", "-m", "mc.runner", prop, "--replay", args.replay])
+        if doc.get("case", {}).get("second_interpreter"):
+            print(json.dumps(doc, indent=1)[:3000])
+            print(f"VIOLATION property={prop} replay={args.replay}")
+            return 1
         v = mod.replay(doc["case"])
         if v is None:
             print(f"replay: property={prop} case holds on the current tree")
@@ -122,6 +190,9 @@ def main(argv=None):
 
     ctx = Ctx(prop, args.tier, seed, args.jobs or None)
     t0 = time.time()
+    second = None
+    if not os.environ.get("VERIF_SECOND") and not os.environ.get("VERIF_NO_SECOND"):
+        second = start_second_interpreter(prop, args.tier, seed)
     try:
         res = mod.run(ctx)  # -> dict(level, tally: Tally, coverage: dict, assumptions: list)
     except BaseException as e:  # noqa: BLE001 - a broken implementation must not break the checker silently
@@ -165,13 +236,25 @@ def main(argv=None):
     if tally.notes:
         coverage["notes"] = tally.notes
     coverage["known_findings_seen"] = {k: e[1] for k, e in known.items()}
+    second_docs = []
+    if second is not None:
+        summary, second_docs = finish_second_interpreter(prop, *second)
+        k = SECOND_SLICE.get(prop, 1) * (2 if args.tier == "thorough" else 1)
+        summary["partitions"] = "all" if k == 1 else f"every {k}th partition of every fan-out"
+        coverage["second_interpreter"] = summary
+        wall = time.time() - t0
+    for d in second_docs:
+        new.append({"sig": {**d.get("sig", {}), "interpreter": " ".join(SECOND_FLAGS)}, "case": d.get("case", {}), "observed": d.get("observed"),
+                    "expected": d.get("expected"), "note": (d.get("note") or "") + " [reported by the second interpreter, python " + " ".join(SECOND_FLAGS) + "]",
+                    "interpreter_flags": SECOND_FLAGS})
     write_evidence(prop, args.tier, seed, res["level"], coverage, res.get("assumptions", []), wall,
                    len(new) + (unmatched_overflow if new else 0))
 
     print(f"[{prop}] tier={args.tier} seed={seed} wall={wall:.1f}s evaluations={coverage['evaluations']} "
           f"distinct_nontrivial={coverage['distinct_nontrivial']} "
           f"states={coverage.get('states', '-')} transitions={coverage.get('transitions', '-')} "
-          f"outcome_classes={len(tally.outcomes)} exhaustive={coverage.get('exhaustive')}")
+          f"outcome_classes={len(tally.outcomes)} exhaustive={coverage.get('exhaustive')}"
+          + (f" second_interpreter({coverage['second_interpreter']['flags']})_evaluations={coverage['second_interpreter']['evaluations']}" if "second_interpreter" in coverage else ""))
     for k, (kf, n, _) in sorted(known.items()):
         print(f"KNOWN-FINDING: property={prop} {kf['id']}: {kf['what']} ({n} cases this run)")
     if not new:
